@@ -65,7 +65,7 @@ func genConc(t *rapid.T) *concCase {
 		}
 		c.Work = append(c.Work, gs)
 	}
-	c.Choices = rapid.SliceOfN(rapid.IntRange(0, 7), 200, 200).Draw(t, "choices")
+	c.Choices = gen.Schedule(t, 200, "sched")
 	return c
 }
 
